@@ -85,6 +85,13 @@ def cases(tier, seed):
                                     ("none", "seg3")[k % 2],
                                     "addr": list(ADDRS[(k + seed) % len(ADDRS)]) if od == "absent" else [OD_INDEX[od], 0],
                                     "seed": seed})
+    # empty write() calls between the chunks
+    for n in range(0, 17):
+        for api in ("open_size", "open_nosize", "open_size_force"):
+            for buffering in (0, 7):
+                k += 1
+                out.append({"dir": "dl", "n": n, "api": api, "buf": buffering, "pred": "none", "empties": True,
+                            "addr": list(ADDRS[(k + seed) % len(ADDRS)]), "seed": seed, "allsplits": 6})
     # the typed accessor's file interface and .data property (SdoVariable.open / get_data / set_data)
     for n in range(0, N + 1):
         for api in ("var_open_size", "var_open_nosize", "var_open_text", "var_data", "var_data_domain"):
@@ -224,6 +231,8 @@ def do_download(node, case, payload, split):
                         chunks.append(payload[off:off + k])
                         off += k
                 for chunk in chunks:
+                    if case.get("empties"):
+                        fp.write(b"")            # an empty write is a legal call and must not disturb the transfer
                     rest, guard = chunk, 0
                     while rest:
                         w = fp.write(rest)
@@ -234,8 +243,12 @@ def do_download(node, case, payload, split):
             else:
                 off = 0
                 for k in split:
+                    if case.get("empties"):
+                        fp.write(b"")
                     fp.write(payload[off:off + k])
                     off += k
+                if case.get("empties"):
+                    fp.write(b"")
 
 
 def run_download(case, st):
